@@ -25,20 +25,21 @@ theorem RetE.of_ne {o : Outcome} (h : ∀ v, o ≠ .ret v) : RetE o := fun v hv 
 /-- the layer a guarded `<%call>` hands to its callee -/
 theorem call_layer_rel (sc : Scope) (bodyArgs : List Name) (body : Tmpl) (mod : Nat)
     (hg : Good (bodyScope sc body) false false true true body = true)
-    (hcb : GoodCB { sc with top := false, cd := false } body = true) (hnd : nodupB (callNames body) = true) :
+    (hcb : GoodCB { sc with top := false, cd := false } body = true) :
     LayerRel ⟨collectDefs (.seq (callDefs { sc with top := false, cd := false } body)
                 (.defn 0 bodyArgs { ownLoops := ownsLoops sc body, deco := false, lex := true }
                    (.seq (.seq (bodyHoist (bodyScope sc body) body) (.prim .getWriter))
                          (.seq (stmts (bodyScope sc body) body) (.ret emptyStr))))), mod⟩
       ((0, ⟨bodyArgs, noFlags, body, .body, mod⟩) :: Spec.callDefsOf mod body) :=
-  ⟨sc, bodyArgs, body, by simp [collectDefs, bodyFun], rfl, hg, hcb, hnd⟩
+  ⟨sc, bodyArgs, body, by simp [collectDefs, bodyFun], rfl, hg, hcb⟩
 
-/-- a `<%block>` is rendered in place: the call of its callable, without arguments and without content -/
+/-- a `<%block>` is rendered in place: `__M_writer(block() or '')` - what its callable writes, then what it returns
+    (the content of a buffered block; /repo 248d875) -/
 theorem snodes_block (C : Spec.Cfg) (m : Nat) (name : Name) (anon : Bool) (fl : DefFlags) (body : Tmpl)
     (E : Spec.Env) (cnt : Nat) :
     Spec.snodes C (m + 2) (.block name anon fl body) E cnt =
       (match Spec.seval C (m + 2) (.call name []) E [] cnt with
-       | ⟨.val _, o, c1⟩ => ⟨.normal, o, c1, E.vars⟩
+       | ⟨.val v, o, c1⟩ => ⟨.normal, o ++ v, c1, E.vars⟩
        | ⟨.exc e, o, c1⟩ => ⟨.exc e, o, c1, E.vars⟩
        | ⟨.timeout, o, c1⟩ => ⟨.timeout, o, c1, E.vars⟩) := by
   simp only [Spec.snodes, Spec.seval, Spec.sargs]
@@ -94,7 +95,8 @@ theorem rc_stmt (hG : GoodAll ts) (n : Nat) (ih : ∀ m, m < n + 1 → RC ts k m
     | val v =>
       simp only [Prod.mk.injEq] at he; obtain ⟨rfl, rfl, rfl⟩ := he
       obtain ⟨o1, hb1, p1, m1, e1⟩ := g (by simp)
-      refine ⟨o1, E.vars, hb1, ⟨m1 + 2, fun m hm => ?_⟩, hR.vars, Keep.refl _, RetE.of_ne (by simp)⟩
+      refine ⟨o1 ++ v, E.vars, by simp [hb1, hw, writeTo], ⟨m1 + 2, fun m hm => ?_⟩, hR.vars, Keep.refl _,
+        RetE.of_ne (by simp)⟩
       obtain ⟨m, rfl⟩ := Nat.exists_eq_add_of_le' (by omega : 2 ≤ m)
       have := e1 (m + 2) (by omega)
       simp only at this
@@ -275,7 +277,7 @@ theorem rc_stmt (hG : GoodAll ts) (n : Nat) (ih : ∀ m, m < n + 1 → RC ts k m
           · exact absurd rfl h
         subst ho'
         -- the state with the pending caller
-        have hlay := call_layer_rel sc bodyArgs body l.mod hg.1.2 hg.1.1.2 hg.2
+        have hlay := call_layer_rel sc bodyArgs body l.mod hg.2 hg.1.2
         have hσ1 : StOK { σ with next := ⟨collectDefs
         (.seq (callDefs { sc with top := false, cd := false } body)
           (.defn 0 bodyArgs { ownLoops := ownsLoops sc body, deco := false, lex := true }
@@ -300,7 +302,7 @@ theorem rc_stmt (hG : GoodAll ts) (n : Nat) (ih : ∀ m, m < n + 1 → RC ts k m
         generalize hx : eval (progOf ts k) n3 e _ _ = y at hwr
         obtain ⟨r, σ1⟩ := y
         have g := (ih n3 (by omega)).eval e il true cv _ _ E
-          (((0, ⟨bodyArgs, noFlags, body, .body, E.mod⟩) :: Spec.callDefsOf E.mod body) :: E.caller) i top rest r σ1 hg.1.1.1 hR1
+          (((0, ⟨bodyArgs, noFlags, body, .body, E.mod⟩) :: Spec.callDefsOf E.mod body) :: E.caller) i top rest r σ1 hg.1.1 hR1
           (NSRel.cons (by rw [← hR.mod]; exact hlay) hR.lcaller) (fun h => by cases h) hil hl' hσ1 hb hx
         cases r with
         | timeout => simp only [Prod.mk.injEq] at hwr; exact absurd hwr.1.symm htow
